@@ -481,9 +481,9 @@ func (self *TextParser) ParseResponse() error {
 			for ; self.bufIndex < self.bufLen; self.bufIndex++ {
 				if self.rbuf[self.bufIndex] == '\n' {
 					if self.argsType == 2 {
-						self.args[1] += string(self.rbuf[startBufIndex : endBufIndex+1])
+						self.args[1] += string(self.rbuf[startBufIndex : endBufIndex])
 					} else {
-						self.args[0] += string(self.rbuf[startBufIndex : endBufIndex+1])
+						self.args[0] += string(self.rbuf[startBufIndex : endBufIndex])
 					}
 					if self.bufIndex > 0 && self.rbuf[self.bufIndex-1] != '\r' {
 						return errors.New("Response parse msg error")
@@ -493,26 +493,26 @@ func (self *TextParser) ParseResponse() error {
 					self.stage = 0
 					return nil
 				} else if self.rbuf[self.bufIndex] != '\r' {
-					endBufIndex = self.bufIndex
+					endBufIndex = self.bufIndex + 1
 				}
 			}
 
 			if self.argsType == 2 {
-				self.args[1] += string(self.rbuf[startBufIndex : endBufIndex+1])
+				self.args[1] += string(self.rbuf[startBufIndex : endBufIndex])
 			} else {
-				self.args[0] += string(self.rbuf[startBufIndex : endBufIndex+1])
+				self.args[0] += string(self.rbuf[startBufIndex : endBufIndex])
 			}
 			return nil
 		case 6:
 			startBufIndex, endBufIndex := self.bufIndex, self.bufIndex
 			for ; self.bufIndex < self.bufLen; self.bufIndex++ {
 				if self.rbuf[self.bufIndex] == ' ' {
-					self.args[0] += string(self.rbuf[startBufIndex : endBufIndex+1])
+					self.args[0] += string(self.rbuf[startBufIndex : endBufIndex])
 					self.bufIndex++
 					self.stage = 5
 					break
 				} else if self.rbuf[self.bufIndex] == '\n' {
-					self.args[0] += string(self.rbuf[startBufIndex : endBufIndex+1])
+					self.args[0] += string(self.rbuf[startBufIndex : endBufIndex])
 					if self.bufIndex > 0 && self.rbuf[self.bufIndex-1] != '\r' {
 						return errors.New("Response parse msg error")
 					}
@@ -521,12 +521,12 @@ func (self *TextParser) ParseResponse() error {
 					self.stage = 0
 					return nil
 				} else if self.rbuf[self.bufIndex] != '\r' {
-					endBufIndex = self.bufIndex
+					endBufIndex = self.bufIndex + 1
 				}
 			}
 
 			if self.stage == 6 {
-				self.args[0] += string(self.rbuf[startBufIndex : endBufIndex+1])
+				self.args[0] += string(self.rbuf[startBufIndex : endBufIndex])
 				return nil
 			}
 		}
